@@ -136,6 +136,32 @@ func (a *Analyzer) AnalyzeResolved(resolved *include.ResolvedJournal) *AnalysisR
 	return result
 }
 
+// orderedIncludedJournals returns the included journals in a deterministic
+// order: the loader's FileOrder first, then any remaining files sorted by path.
+// Ranging over resolved.Files directly would make the order of collected
+// names depend on Go's randomised map iteration.
+func orderedIncludedJournals(resolved *include.ResolvedJournal) []*ast.Journal {
+	journals := make([]*ast.Journal, 0, len(resolved.Files))
+	seen := make(map[string]bool, len(resolved.Files))
+	for _, path := range resolved.FileOrder {
+		if journal, ok := resolved.Files[path]; ok && !seen[path] {
+			seen[path] = true
+			journals = append(journals, journal)
+		}
+	}
+	rest := make([]string, 0, len(resolved.Files))
+	for path := range resolved.Files {
+		if !seen[path] {
+			rest = append(rest, path)
+		}
+	}
+	sort.Strings(rest)
+	for _, path := range rest {
+		journals = append(journals, resolved.Files[path])
+	}
+	return journals
+}
+
 func collectAccountsFromResolved(resolved *include.ResolvedJournal) *AccountIndex {
 	idx := NewAccountIndex()
 	seen := make(map[string]bool)
@@ -149,7 +175,7 @@ func collectAccountsFromResolved(resolved *include.ResolvedJournal) *AccountInde
 		}
 	}
 
-	for _, journal := range resolved.Files {
+	for _, journal := range orderedIncludedJournals(resolved) {
 		for _, name := range CollectAccounts(journal).All {
 			if !seen[name] {
 				seen[name] = true
@@ -174,7 +200,7 @@ func collectPayeesFromResolved(resolved *include.ResolvedJournal) []string {
 		}
 	}
 
-	for _, journal := range resolved.Files {
+	for _, journal := range orderedIncludedJournals(resolved) {
 		for _, p := range CollectPayees(journal) {
 			if !seen[p] {
 				seen[p] = true
@@ -199,7 +225,7 @@ func collectCommoditiesFromResolved(resolved *include.ResolvedJournal) []string 
 		}
 	}
 
-	for _, journal := range resolved.Files {
+	for _, journal := range orderedIncludedJournals(resolved) {
 		for _, c := range CollectCommodities(journal) {
 			if !seen[c] {
 				seen[c] = true
@@ -224,7 +250,7 @@ func collectTagsFromResolved(resolved *include.ResolvedJournal) []string {
 		}
 	}
 
-	for _, journal := range resolved.Files {
+	for _, journal := range orderedIncludedJournals(resolved) {
 		for _, t := range CollectTags(journal) {
 			if !seen[t] {
 				seen[t] = true
@@ -258,7 +284,7 @@ func collectTagValuesFromResolved(resolved *include.ResolvedJournal) map[string]
 	}
 
 	mergeTagValues(resolved.Primary)
-	for _, journal := range resolved.Files {
+	for _, journal := range orderedIncludedJournals(resolved) {
 		mergeTagValues(journal)
 	}
 
@@ -282,7 +308,7 @@ func collectDatesFromResolved(resolved *include.ResolvedJournal) []string {
 	}
 
 	mergeDates(resolved.Primary)
-	for _, journal := range resolved.Files {
+	for _, journal := range orderedIncludedJournals(resolved) {
 		mergeDates(journal)
 	}
 
